@@ -727,6 +727,67 @@ func c18Payloads(ctx *Ctx, r *Report) {
 			}
 		}
 	}
+	// interprocedural: a payload-derived reference handed to a callee that writes through that parameter
+	eng := newEffectsEngine(ctx)
+	calls := 0
+	for _, p := range ctx.Pkgs {
+		info := p.TypesInfo
+		for _, file := range p.Syntax {
+			for _, d := range file.Decls {
+				fd, ok := d.(*ast.FuncDecl)
+				if !ok || fd.Body == nil {
+					continue
+				}
+				fobj, _ := info.Defs[fd.Name].(*types.Func)
+				alias := map[types.Object]ast.Expr{}
+				ast.Inspect(fd.Body, func(n ast.Node) bool {
+					if as, ok := n.(*ast.AssignStmt); ok && len(as.Rhs) == 1 && payloadAccess(info, as.Rhs[0], pay, alias) != nil {
+						for _, l := range as.Lhs {
+							if id, ok := l.(*ast.Ident); ok && objOf(info, id) != nil && typeContainsRef(info.TypeOf(id)) {
+								alias[objOf(info, id)] = as.Rhs[0]
+							}
+						}
+					}
+					return true
+				})
+				ast.Inspect(fd.Body, func(n ast.Node) bool {
+					call, ok := n.(*ast.CallExpr)
+					if !ok {
+						return true
+					}
+					fn := callee(info, call)
+					if fn == nil {
+						return true
+					}
+					if cfd, _ := ctx.DeclOf(fn); cfd == nil {
+						return true
+					}
+					sig := fn.Type().(*types.Signature)
+					for _, f := range eng.EffectsOf(fn) {
+						if f.Root < 0 && f.Root != rootRecv {
+							continue
+						}
+						actual := actualFor(call, sig, f.Root)
+						if actual == nil {
+							continue
+						}
+						calls++
+						pf := payloadAccess(info, actual, pay, alias)
+						if pf == nil || isDirectMapField(info, actual, pay) {
+							continue
+						}
+						// the argument must itself be a reference (map/slice/pointer) for the callee's store to land in the payload
+						if !typeContainsRef(info.TypeOf(actual)) {
+							continue
+						}
+						r.Bad("copycheck/payload-mutation", ctx.FuncName(fobj)+" passes "+exprString(actual)+" to "+ctx.FuncName(fn), call.Pos(), fmt.Sprintf("%s is reached through the shared `any` payload %s and %s writes through that argument (%s): DeepCopy shares payloads, so the schemas the chain was handed are modified", exprString(actual), pf.Name(), ctx.FuncName(fn), f.String()))
+					}
+					return true
+				})
+			}
+		}
+	}
+	r.Count("callee write facts matched against payload arguments", calls)
 	r.Count("indexed/deref store sites scanned", sites)
 	r.Floor("indexed/deref store sites scanned", 50)
 	r.OK("copycheck/payload-mutation", "all of cog", token.NoPos, fmt.Sprintf("%d indexed/dereferencing stores scanned; none goes through a payload value", sites))
